@@ -42,7 +42,7 @@ def plan(tier):
 CALLBACKS = ("BeforeMethodStart", "OnEndIteration", "OnMethodStop")
 
 
-def make_custom(overrides, sink, value_eq=False):
+def make_custom(overrides, sink, value_eq=False, indirect=False):
     from iOpt.method.listener import Listener
     body = {}
     if value_eq:
@@ -62,7 +62,13 @@ def make_custom(overrides, sink, value_eq=False):
         def OnMethodStop(self, searchData, solution, status):
             sink.append("stop")
         body["OnMethodStop"] = OnMethodStop
-    return type("Custom_" + "_".join(sorted(overrides)) or "Custom_none", (Listener,), body)()
+    name = "Custom_" + "_".join(sorted(overrides)) or "Custom_none"
+    if indirect:
+        # the callbacks are inherited from an intermediate class (a mixin / a user's own base listener): the listener's
+        # own class body is empty
+        base = type(name + "_Base", (Listener,), body)
+        return type(name, (base,), {})()
+    return type(name, (Listener,), body)()
 
 
 def make_shipped(spec, n, outdir):
@@ -139,6 +145,10 @@ def cases(draw):
     refine = "solve" in ops and draw(st.integers(0, 2)) == 0
     case = {"recipe": recipe, "params": params, "customs": customs, "shipped": shipped, "ops": ops, "refine": refine}
     case["value_eq"] = draw(st.integers(0, 3)) == 0
+    case["indirect"] = draw(st.integers(0, 3)) == 0
+    sp = draw(gen.start_points(recipe))
+    if sp is not None:
+        case["params"] = dict(params, startPoint=sp)
     if not has_painter and draw(st.integers(0, 5)) == 0:
         # the objective fails at its k-th evaluation while listeners are attached
         case["fail_at"] = draw(st.integers(2, max(2, min(total, 30))))
@@ -184,7 +194,7 @@ def fault_body(case):
     first = make_recorder(clock)
     run.solver.AddListener(first)
     for ov in case["customs"]:
-        run.solver.AddListener(make_custom(ov, sink, case.get("value_eq", False)))
+        run.solver.AddListener(make_custom(ov, sink, case.get("value_eq", False), case.get("indirect", False)))
     for spec in case["shipped"]:
         if spec["kind"] == "console":
             run.solver.AddListener(make_shipped(spec, n, None))
@@ -240,7 +250,7 @@ def body(case):
         first, last = make_recorder(clock), make_recorder(clock)
         run.solver.AddListener(first)
         for ov in case["customs"]:
-            run.solver.AddListener(make_custom(ov, sink, case.get("value_eq", False)))
+            run.solver.AddListener(make_custom(ov, sink, case.get("value_eq", False), case.get("indirect", False)))
         for spec in case["shipped"]:
             run.solver.AddListener(make_shipped(spec, n, outdir))
         run.solver.AddListener(last)
